@@ -6,10 +6,14 @@ Oracle (the property statement, clause by clause):
   * never a sanitizer report (exit 98/99) or a signal;
   * exit 0  ⇒ the output image exists and `rdsquashfs -d` reads all of it;
   * exit ≠ 0 ⇒ something was printed on stderr and no output file is left.
-Inputs whose members *declare* more than BIG bytes (sparse real size, …) are listed by the tar harness only and not
-handed to the packer: packing time is proportional to the declared size, which is not what C07 is about.
+Mutated archives whose members *declare* more than BIG (32 MiB) bytes (sparse real size, …) are listed by the tar
+harness only and not handed to the packer, to keep the run short: packing time is proportional to the declared size.
+That this proportionality is itself a violation of "terminates within bounded time" (a 1.5 KiB archive may declare
+2^60 bytes) is covered separately and explicitly: `run_tar_declared` hands archives declaring 2^40, 2^50 and 2^60
+bytes to tar2sqfs under a CPU-time limit (findings KEY_DECLARED_BEYOND, KEY_DECLARED_SIZE), and `run_tar_content`
+packs well-formed sparse members of up to several MiB with every block size and compares the content read back.
 """
-import base64, bz2, gzip, io, lzma, os, shutil, subprocess, tarfile, zlib
+import base64, bz2, gzip, io, lzma, os, resource, shutil, subprocess, tarfile, zlib
 from concurrent.futures import ThreadPoolExecutor
 from pathlib import Path
 import vlib
@@ -27,6 +31,10 @@ KEY_NODIAG_TAR = "nodiag:tar2sqfs:iterator-error"
 KEY_NODIAG_XATTR = "nodiag:gensquashfs:xattr-map"
 KEY_NODIAG_SORT = "nodiag:gensquashfs:sort-file-trailing"
 KEY_GLOB_NOPACKDIR = "ubsan:glob:null-basepath"
+KEY_DECLARED_SIZE = "declared-size:tar2sqfs:work-proportional-to-declared-size"      # sizes an inode can carry (<= 2^29 blocks)
+KEY_DECLARED_BEYOND = "declared-size:tar2sqfs:beyond-inode-capacity"                  # sizes that can never be stored: must be refused at once
+MAX_FILE_BLOCKS = 1 << 29      # set_block_size (lib/sqfs/src/block_processor/backend.c): the block list may not exceed 2^31 bytes
+DECLARED_CPU_S = 5     # CPU seconds a packer may spend on an archive of a few hundred bytes that declares a huge sparse file
 
 # --------------------------------------------------------------------------------------------- tar mutation
 
@@ -53,6 +61,10 @@ def chksum(block):
 
 def fix_checksum(block):
     block[148:156] = b"%06o\0 " % chksum(block)
+
+
+def fix_checksum_at(buf, off):
+    b = bytearray(buf[off:off + 512]); fix_checksum(b); buf[off:off + 512] = b
 
 
 def header_ok(block):
@@ -232,9 +244,10 @@ def mk_header(name, size=0, typeflag=b"0", linkname=b"", magic=b"ustar\x0000", s
         h[257:265] = b"ustar  \0"
         off = 386
         for o, n in sparse[:4]:
-            h[off:off + 12] = b"%011o\0" % o; h[off + 12:off + 24] = b"%011o\0" % n; off += 24
+            h[off:off + 12] = (b"%011o\0" % o) if o < 8 ** 11 else (b"\x80" + o.to_bytes(11, "big"))
+            h[off + 12:off + 24] = b"%011o\0" % n; off += 24
         h[482] = isext
-        h[483:495] = b"%011o\0" % realsize
+        h[483:495] = (b"%011o\0" % realsize) if realsize < 8 ** 11 else (b"\x80" + realsize.to_bytes(11, "big"))
     fix_checksum(h)
     return bytes(h)
 
@@ -325,6 +338,87 @@ def tar_deep(rng, n, kind):
     else:
         pre = ext_record(b"x", pax_rec(b"path", path))
     return pre + hdr + body + b"\0" * 1024
+
+
+# --------------------------------------------------------------------------------------------- sparse members
+SPARSE_DIALECTS = ("old", "pax00", "pax01", "pax10")
+
+
+def sparse_layout(rng, hole, where, ndata=None):
+    """data regions [(offset, bytes)] and the real size of a file with one hole of `hole` bytes at the start / in the
+    middle / at the end (`where`), a few small data regions around it (and further small holes between them)"""
+    def blob():
+        n = ndata if ndata is not None else rng.choice([1, 7, 511, 512, 513, 1000, 4096, 5000])
+        return bytes(rng.randrange(1, 256) for _ in range(n))
+    regions, pos = [], 0
+    if where != "start":
+        for _ in range(rng.choice([1, 1, 2])):
+            d = blob(); regions.append((pos, d)); pos += len(d) + rng.choice([0, 0, 1, 512, 4095, 4096, 4097])
+        pos = regions[-1][0] + len(regions[-1][1])
+    pos += hole
+    if where != "end":
+        for _ in range(rng.choice([1, 1, 2])):
+            d = blob(); regions.append((pos, d)); pos += len(d) + rng.choice([0, 0, 1, 512, 4096])
+        pos = regions[-1][0] + len(regions[-1][1])
+    return regions, pos
+
+
+def sparse_expand(regions, real):
+    """the independent expansion: what the unpacked file must look like"""
+    out = bytearray(real)
+    for off, d in regions:
+        out[off:off + len(d)] = d
+    return bytes(out)
+
+
+def sparse_member(dialect, name, regions, real):
+    """one sparse member in one of the four dialects (old GNU 'S' header with extension blocks; PAX 0.0
+    offset/numbytes pairs; PAX 0.1 GNU.sparse.map; PAX 1.0 map in front of the data), without end-of-archive blocks"""
+    data = b"".join(d for _, d in regions)
+    ents = [(o, len(d)) for o, d in regions]
+    pad = lambda b: b + b"\0" * ((-len(b)) % 512)
+    if dialect == "old":
+        ents = ents + [(real, 0)]                              # GNU tar ends the map with an empty entry at the real size
+        head, rest = ents[:4], ents[4:]
+        out = mk_header(name, len(data), b"S", sparse=head, realsize=real, isext=1 if rest else 0)
+        while rest:
+            blk = bytearray(512)
+            for j, (o, c) in enumerate(rest[:21]):
+                blk[j * 24:j * 24 + 12] = b"%011o\0" % o
+                blk[j * 24 + 12:j * 24 + 24] = b"%011o\0" % c
+            rest = rest[21:]
+            blk[504] = 1 if rest else 0
+            out += bytes(blk)
+        return out + pad(data)
+    if dialect == "pax00":
+        recs = pax_rec(b"GNU.sparse.size", b"%d" % real) + pax_rec(b"GNU.sparse.numblocks", b"%d" % len(ents))
+        for o, c in ents:
+            recs += pax_rec(b"GNU.sparse.offset", b"%d" % o) + pax_rec(b"GNU.sparse.numbytes", b"%d" % c)
+        return ext_record(b"x", recs) + mk_header(name, len(data)) + pad(data)
+    if dialect == "pax01":
+        recs = pax_rec(b"GNU.sparse.name", name) + pax_rec(b"GNU.sparse.size", b"%d" % real) + \
+            pax_rec(b"GNU.sparse.numblocks", b"%d" % len(ents)) + \
+            pax_rec(b"GNU.sparse.map", b",".join(b"%d,%d" % e for e in ents))
+        return ext_record(b"x", recs) + mk_header(b"GNUSparseFile.0/" + name, len(data)) + pad(data)
+    if dialect == "pax10":
+        recs = pax_rec(b"GNU.sparse.major", b"1") + pax_rec(b"GNU.sparse.minor", b"0") + \
+            pax_rec(b"GNU.sparse.name", name) + pax_rec(b"GNU.sparse.realsize", b"%d" % real)
+        m = pad(b"%d\n" % len(ents) + b"".join(b"%d\n%d\n" % e for e in ents))
+        return ext_record(b"x", recs) + mk_header(b"GNUSparseFile.0/" + name, len(m) + len(data)) + m + pad(data)
+    raise ValueError(dialect)
+
+
+def tar_sparse_holes(rng, dialect, hole, where, ndata=None):
+    """archive: marker member, one sparse member `sp.bin`, marker member; returns (archive, expected content)"""
+    regions, real = sparse_layout(rng, hole, where, ndata)
+    arch = mk_header(b"before", 3) + b"abc".ljust(512, b"\0") + sparse_member(dialect, b"sp.bin", regions, real) + \
+        mk_header(b"zz-after", 5) + b"hello".ljust(512, b"\0") + b"\0" * 1024
+    return arch, sparse_expand(regions, real), regions, real
+
+
+def tar_declared_size(dialect, declared):
+    """a sparse member that *declares* `declared` bytes and carries next to no data: the whole file is one hole"""
+    return sparse_member(dialect, b"huge.bin", [(0, b"x")], declared) + b"\0" * 1024
 
 
 def compress_variants(data):
@@ -672,6 +766,64 @@ class Tools:
                 if missing:
                     res["bad"].append(("members-kept", "tar2sqfs exits 0 but %d member(s) following the sparse file are not in the image "
                                        "(first: %s)" % (len(missing), missing[0])))
+        shutil.rmtree(d, ignore_errors=True)
+        return res
+
+    def run_tar_content(self, data, opts, name, want, markers=(), timeout=TIMEOUT):
+        """a well-formed archive: tar2sqfs must accept it, and the content of member `name` read back from the image with
+        `rdsquashfs -c` must be `want` (the independent expansion of the sparse map); the marker members must be there"""
+        d = self.jobdir()
+        inp, outp = d / "in.tar", d / "out.sqfs"
+        inp.write_bytes(data)
+        what = "tar2sqfs " + " ".join(opts)
+        rc, out, err = self.proc([str(self.t2s), "-q", "-f"] + list(opts) + [str(outp)], stdin_path=inp, timeout=timeout)
+        res = {"rc": rc, "stderr": err[-300:].decode(errors="replace"), "bad": self.judge(rc, err, outp, what, timeout)}
+        if rc not in (0, "timeout") and not res["bad"]:
+            res["bad"].append(("valid-input-accepted", "%s refuses a well-formed sparse archive (exit %s): %s" % (what, rc, res["stderr"][-200:])))
+        if rc == 0 and outp.exists() and not res["bad"]:
+            rc2, got, e2 = self.proc([str(self.rd), "-c", name.decode(), str(outp)], timeout=TIMEOUT * 6)
+            if rc2 in (98, 99) or (isinstance(rc2, int) and (rc2 < 0 or rc2 >= 128)):
+                res["bad"].append(("no-crash", "rdsquashfs -c on the image %s wrote: exit %s: %s" % (what, rc2, e2[:6000].decode(errors="replace"))))
+            elif rc2 != 0:
+                res["bad"].append(("exit0-image", "%s exits 0 but rdsquashfs -c %s fails (%s): %s" % (what, name.decode(), rc2, e2[-300:].decode(errors="replace"))))
+            elif got != want:
+                k = next((i for i, (x, y) in enumerate(zip(got, want)) if x != y), min(len(got), len(want)))
+                res["bad"].append(("content-kept", "%s exits 0 but the content of %s in the image differs from the expansion of the sparse "
+                                   "map at byte %d (%d bytes read back, %d expected; there: %s, expected %s)" % (
+                                       what, name.decode(), k, len(got), len(want), got[k:k + 8].hex() or "-", want[k:k + 8].hex() or "-")))
+            if markers:
+                rc3, o3, _ = self.proc([str(self.rd), "-d", str(outp)])
+                have = o3.decode(errors="replace")
+                missing = [m.decode() for m in markers if (" %s " % m.decode()) not in have]
+                if missing:
+                    res["bad"].append(("members-kept", "%s exits 0 but member %s next to the sparse file is not in the image" % (what, missing[0])))
+        shutil.rmtree(d, ignore_errors=True)
+        return res
+
+    def run_tar_declared(self, data, cpu_s=None):
+        """an archive whose only member declares a huge sparse file: tar2sqfs gets DECLARED_CPU_S seconds of CPU time
+        (RLIMIT_CPU: SIGXCPU, then SIGKILL one second later). Either outcome of the packer is fine (refusal, or an image),
+        grinding through the declared size is not."""
+        cpu_s = cpu_s or DECLARED_CPU_S
+        d = self.jobdir()
+        inp, outp = d / "in.tar", d / "out.sqfs"
+        inp.write_bytes(data)
+        def limit():
+            resource.setrlimit(resource.RLIMIT_CPU, (cpu_s, cpu_s + 1))
+        try:
+            with open(inp, "rb") as fin:
+                r = subprocess.run([str(self.t2s), "-q", "-f", "-j", "1", str(outp)], stdin=fin, stdout=subprocess.PIPE, stderr=subprocess.PIPE,
+                                   env=self.env, preexec_fn=limit, timeout=cpu_s * 12 + 30)
+            rc, err = r.returncode, r.stderr
+        except subprocess.TimeoutExpired:
+            rc, err = "timeout", b""
+        res = {"rc": rc, "stderr": err[-300:].decode(errors="replace"), "bad": []}
+        if rc == "timeout" or rc in (-24, -9) or b"CPU time limit" in err:
+            res["outcome"] = "cpu-limit"
+            res["bad"].append(("terminates", "tar2sqfs is still working after %d s of CPU time on %d bytes of input" % (cpu_s, len(data))))
+        else:
+            res["outcome"] = "exit %s" % (rc if rc == 0 else "!=0")
+            res["bad"] += self.judge(rc, err, outp, "tar2sqfs", TIMEOUT)
         shutil.rmtree(d, ignore_errors=True)
         return res
 
